@@ -85,6 +85,11 @@ type VM struct {
 	pathNotes map[string]string
 	Extra     map[string]interface{} // per-check hooks (stubs, callee replacement)
 	hasAbort  bool
+	// environment of the CLI stubs (per path)
+	onceSyms       map[string]*Value
+	stdout, stderr []Value
+	stdin          Value
+	vfs            map[string]Value
 	RecordStubs map[string]bool    // functions replaced by "record the arguments, return zero values"
 	stubLog     map[string][]Value // per path
 	regions   map[string]*smt.Term
@@ -176,6 +181,13 @@ func (vm *VM) global(g *ssa.Global) *Value {
 		return p
 	}
 	p := vm.newCell(vm.zero(g.Type().(*types.Pointer).Elem()))
+	if g.Pkg != nil && g.Pkg.Pkg.Path() == "os" {
+		switch g.Name() {
+		case "Stdin", "Stdout", "Stderr":
+			// distinct opaque *os.File objects the I/O intrinsics recognise
+			*p = vm.newCell(&Native{Kind: strings.ToLower(g.Name())})
+		}
+	}
 	vm.globals[g] = p
 	vm.globalCells[p] = g
 	// creation of the cell itself must be undone too: otherwise a later path would
